@@ -89,6 +89,69 @@ func c19Classify(orig, res []any) string {
 	return "defrag:corrupt"
 }
 
+// c19Known reproduces, step by step, what the pinned tree's Defrag does to a flat stack (scan pattern, relocation loop,
+// the 'last' arithmetic of the verification step): the exact outcome of the KNOWN truncation defect for any pattern, so
+// that a wrong result of any other shape or size is told apart from it. fwd = forward-index option of the stack.
+func c19Known(orig []any, max int, fwd bool) (res []any, errSet bool) {
+	L := len(orig)
+	raw := make([]any, L+1)
+	raw[0] = "cfg"
+	copy(raw[1:], orig)
+	present := func(i int) bool {
+		if L == 0 {
+			return false
+		}
+		if i > L-1 {
+			if !fwd {
+				return false
+			}
+			return raw[L] != nil
+		}
+		return raw[i+1] != nil
+	}
+	start := -1
+	spat := make([]int, L+1)
+	for i := 0; i < L+1; i++ {
+		if !present(i) {
+			if start == -1 {
+				start = i
+			}
+			continue
+		}
+		spat[i] = 1
+	}
+	if start == -1 {
+		return append([]any{}, orig...), false
+	}
+	tpat := make([]int, L+1)
+	tpat[0] = 1
+	ct, run := 0, 0
+	for run < max && start+ct < L {
+		if raw[start+ct+1] == nil {
+			ct++
+			run++
+			continue
+		}
+		raw[start+1] = raw[start+ct+1]
+		tpat[start+ct] = 1
+		raw[start+ct+1] = nil
+		start++
+		run = 0
+	}
+	last, fail := -1, false
+	for i := 1; i < len(spat); i++ {
+		fail = spat[i] != tpat[i]
+		if tpat[i] != 0 {
+			last = (i - 1 + i) - len(tpat)
+		}
+	}
+	last--
+	if !fail && last >= 0 && last+1 <= len(raw) {
+		raw = raw[:last+1]
+	}
+	return raw[1:], fail
+}
+
 var (
 	c19PinOnce sync.Once
 	c19Pins    map[string]string
@@ -269,6 +332,18 @@ func c19Flat(c *core.Ctx, p string, limit int, neg, fwd bool, kind string, pinne
 			}
 			c.Count("matches-pinned-known-outcome")
 		}
+		if sig == "defrag:truncation" {
+			lim := limit
+			if lim == 0 {
+				lim = 50
+			}
+			kres, kerr := c19Known(orig, lim, fwd)
+			if showList(kres) != showList(res) || kerr != (err != nil) {
+				c.Violatef("defrag:deviates-from-known-arithmetic", desc, "pattern %q limit %d -> %s err=%s: neither correct nor what the known truncation arithmetic gives for this pattern (%s, error %v)", p, limit, showList(res), errText(err), showList(kres), kerr)
+				return
+			}
+			c.Count("matches-known-arithmetic")
+		}
 		c.Violatef(sig, desc, "pattern %q limit %d -> %s err=%s (expected the %d non-nil elements in order, Len %d, no error)", p, limit, showList(res), errText(err), strings.Count(p, "x"), strings.Count(p, "x"))
 		return
 	}
@@ -348,6 +423,19 @@ func c19Judge(c *core.Ctx, n *c19Node, desc any, path string, sigs map[string]bo
 	sig := c19Classify(n.orig, res)
 	if sig == "" && strings.Contains(n.Pat, ".") && n.s.Err() != nil {
 		sig = "defrag:spurious-err"
+	}
+	if sig == "defrag:truncation" {
+		// the nested call runs with the default scan limit; the exact known outcome is computable here as well
+		fwdOpt := false
+		if d, ok := stackage.VerifDump(n.s); ok {
+			fwdOpt = d.Opt&32 != 0 // forward-index option bit
+		}
+		kres, kerr := c19Known(n.orig, 50, fwdOpt)
+		if showList(kres) != showList(res) || kerr != (n.s.Err() != nil) {
+			c.Violatef("defrag:deviates-from-known-arithmetic", desc, "nested stack at %s, pattern %q -> %s err=%s: neither correct nor what the known truncation arithmetic gives (%s, error %v)", path, n.Pat, showList(res), errText(n.s.Err()), showList(kres), kerr)
+			return
+		}
+		c.Count("matches-known-arithmetic")
 	}
 	if sig != "" {
 		sigs[sig+"@"+path] = true
